@@ -412,6 +412,17 @@ def runOp (st : MState) (op : Json) : E (MState × Json) := do
           return finish { st with cells := cells', groups := st.groups.push (m, ids ++ sharedIds),
                                   handles := (nid, st.groups.size, 0) :: st.handles.filter (·.1 != nid) } "h" [.str hd.pathStr] none
         | none => return finish { st with handles := st.handles.filter (·.1 != nid) } "none" [] none
+  | [.str "h.mpop", hid, p] => do
+    -- pop(path, m, default) with the Match behind a live handle as data source: the search starts from the node
+    -- the Match holds (as its TraverserMatch objects cache it now), wherever the document has moved it since
+    let hid ← match hid.getNat? with | .ok n => pure n | .error e => .error e
+    match (st.handles.lookup hid).bind (fun gd => (st.groups[gd.1]?).bind fun gr =>
+        ((gr.1.withCells (chainCells st.cells gr.2)).ancestor gd.2)) with
+    | none => return finish st "nohandle" [] none
+    | some sm =>
+      match pop (stepsOfJson p) (.nested sm) (some (.atom (.str "dflt"))) st.heap with
+      | (h', .ok v) => return finish { st with heap := h' } "ok" [] (some v)
+      | (h', .error e) => return finishErr { st with heap := h' } (errJ e)
   | [.str "h.parent", nid, hid] => do
     let nid ← match nid.getNat? with | .ok n => pure n | .error e => .error e
     let hid ← match hid.getNat? with | .ok n => pure n | .error e => .error e
